@@ -19,6 +19,7 @@ func init() {
 	reg("C05", "C05.R4", "E2+E8", "standard pool: one Inc per get, one Dec per back, slot = counter mod capacity", 1, ruleStdPoolBalance)
 	reg("C05", "C05.R5", "E2", "finalizer gives an event back only when backEvent && !(timeout||child), once", 1, ruleFinalizerBack)
 	reg("C05", "C05.R7", "E1+E2", "every event of a batch is acknowledged: the commit loop covers batch.events[0..len) (same rule as C02.R3)", 1, ruleFIFOBatchFill)
+	reg("C05", "C05.R8", "E2", "a recycled event is a regular event again (kind reset on all paths of back or get, both pools)", 2, ruleRecycledEventIsRegular)
 	reg("C05", "C05.R6", "E1+E2", "every Event literal outside the pool is re-kinded (child/timeout/unlock) on all paths", 3, ruleForeignEvents)
 }
 
@@ -533,4 +534,81 @@ func ruleForeignEvents(c *Ctx, r *Rule) {
 			}
 		}
 	}
+}
+
+// ruleRecycledEventIsRegular: events are recycled through the pools; an object that was a split
+// parent (or any other special kind) in its previous life must be a regular event again when it is
+// handed out — the batcher never sends parents, the commit path treats kinds differently. Per pool
+// implementation: every path through back(), or every path through get(), resets Event.kind to the
+// regular constant (directly or through a helper that does so on all its paths).
+func ruleRecycledEventIsRegular(c *Ctx, r *Rule) {
+	pr := c.pool()
+	if pr == nil {
+		r.Unresolved("pipeline.pool")
+		return
+	}
+	// the regular kind: the constant stored by the function that also clears Event.next / Event.stream (the reset)
+	isKindReset := func(in ssa.Instruction) bool {
+		st, ok := in.(*ssa.Store)
+		if !ok {
+			return false
+		}
+		o, f, _, okf := fieldOf(st.Addr)
+		if !okf || !isField(o, f, pipelinePkg, "Event", "kind") {
+			return false
+		}
+		k, isK := constInt(st.Val)
+		return isK && k == 0
+	}
+	memo := map[*ssa.Function]int{}
+	var resetsOnAllPaths func(fn *ssa.Function, d int) bool
+	resetsOnAllPaths = func(fn *ssa.Function, d int) bool {
+		if fn == nil || fn.Blocks == nil || d > 3 {
+			return false
+		}
+		switch memo[fn] {
+		case 1:
+			return true
+		case 2, 3:
+			return false
+		}
+		memo[fn] = 3
+		pass := func(in ssa.Instruction) bool {
+			if isKindReset(in) {
+				return true
+			}
+			if ci, ok := in.(ssa.CallInstruction); ok {
+				if _, isGo := ci.(*ssa.Go); isGo {
+					return false
+				}
+				if _, isDefer := ci.(*ssa.Defer); isDefer {
+					return false
+				}
+				if g := ci.Common().StaticCallee(); g != nil && c.inModule(g) && c.pkgOf(g) == "pipeline" {
+					return resetsOnAllPaths(g, d+1)
+				}
+			}
+			return false
+		}
+		miss, _ := c.pathExists(fn, nil, isReturn, pass)
+		if miss {
+			memo[fn] = 2
+			return false
+		}
+		memo[fn] = 1
+		return true
+	}
+	n := 0
+	for _, t := range c.Implementers(pr.iface) {
+		get, back := c.MethodOf(t, "get"), c.MethodOf(t, "back")
+		if get == nil || back == nil {
+			continue
+		}
+		n++
+		r.Inst(1)
+		typ := namedOf(t).Obj().Name()
+		ok := resetsOnAllPaths(back, 0) || resetsOnAllPaths(get, 0)
+		r.Ob(ok, typ+"|recycled-event-is-regular", back.Pos(), "every event that goes through "+typ+" has its kind reset to regular on all paths of back() or of get() (a recycled split parent that keeps its kind is skipped by the batcher's send and still committed)")
+	}
+	r.Ob(n >= 2, "pool|implementations", token.NoPos, fmt.Sprintf("%d pool implementations examined", n))
 }
